@@ -209,7 +209,7 @@ func (e *Engine) applyGhostEffectsOld(st, old *State, con *Contract, env *SpecEn
 			v := e.coerceTo(e.evalSpec(st, old, rhs, env), types.Typ[types.Int])
 			key := ghostKeyOf(g)
 			arr := e.heapGet(st, key, "(Array Int (_ BitVec 64))")
-			st.heap[key] = sto(arr, idx.T, v.T)
+			st.heap[key] = sto(arr, ghostIdx(idx), v.T)
 			continue
 		}
 		sel, ok := lhs.(SSel)
